@@ -99,3 +99,10 @@ def structOK (isEnd hasValidity : Bool) (v : SViews) : Bool :=
      !v.vDefMut && !v.vDefImm && !v.vFromMut && !v.vPushNull && !v.vReadPush && !v.vInto && !v.vFrom && v.vWithCapacity.1 == 2)
 
 end Peppi
+
+namespace Peppi
+/-- the Arrow schema a generated struct declares (`data_type`) — member names, types, and the version from which each
+    member exists — is exactly the generator's field table for that struct (`gen/resources/frames.json`) -/
+def schemaMatchesJson (v : SViews) (json : List (List Nat × Nat × Option (Nat × Nat))) : Bool :=
+  v.arrowFields.map (fun e => (e.name, e.kind, effGate e.gates)) == json
+end Peppi
